@@ -135,6 +135,35 @@ def alt_value(name, f, current, var="tas"):
     return None
 
 
+def spellings(f, current):
+    """other spellings of valid values for a field: Python int / bool / numpy scalars where a float or an int is meant, …"""
+    vs = f["validators"]
+    out = []
+    if "instFloat" in vs or "instFloatOrNone" in vs:
+        base = {"lower_bound": 0.0, "lower_threshold": 1.0, "upper_bound": 400.0, "upper_threshold": 399.0}.get(f["name"], 0.25)
+        out += [(int(base) if base == int(base) else 1, "python int for a float"), (np.float64(base), "np.float64"), (np.float32(base), "np.float32"),
+                (np.int64(int(base) or 1), "np.int64 for a float"), (True, "bool for a float")]
+    elif "instInt" in vs:
+        v = {"running_window_length": 61, "running_window_step_length": 15, "running_window_over_years_of_cm_future_length": 7,
+             "running_window_over_years_of_cm_future_step_length": 3, "window_length_annual_cycle_of_upper_bounds": 15}.get(f["name"], 3)
+        out += [(np.int64(v), "np.int64 for an int"), (np.int32(v), "np.int32 for an int"), (float(v), "float for an int"), (True, "bool for an int")]
+    elif "instBool" in vs:
+        out += [(np.bool_(not current), "np.bool_ for a bool"), (int(not current), "python int for a bool")]
+    elif any(v.startswith("oneOf(") for v in vs):
+        opts = next(v for v in vs if v.startswith("oneOf("))[6:-1].split("|")
+        out += [(np.str_(next(o for o in opts if o != current)), "np.str_ for a str")]
+    return out
+
+
+def enc_np(v):
+    """driver encoding including numpy scalars that are not Python ints / floats (`n:`)"""
+    if isinstance(v, (np.integer, np.floating, np.bool_)) and not isinstance(v, (int, float)):
+        return "n:" + C.rat(float(v))
+    if isinstance(v, np.str_):
+        return enc(str(v))
+    return enc_field(v)
+
+
 def invalid_values(f):
     """(value, note) pairs that must be rejected, one or two per validator"""
     out = []
@@ -186,10 +215,14 @@ _DATA = {}
 def data(var="tas"):
     if var not in _DATA:
         no, nh, nf = 730, 730, 1096
+        if var == "tas_years":  # cm_future spans 12 years with a trend: windows over years (length 5) and their step matter
+            nf = 12 * 365 + 3
         if var == "pr":
             x = (series_pr(no, 1, 5e-5), series_pr(nh, 2, 6e-5), series_pr(nf, 3, 7e-5))
         else:
             x = (series(no, 1, 280.0), series(nh, 2, 281.0), series(nf, 3, 283.0))
+            if var == "tas_years":
+                x = (x[0], x[1], x[2] + np.round(np.linspace(0.0, 6.0, nf) * 64)[:, None, None] / 64)
         _DATA[var] = (x, dict(time_obs=dates(no), time_cm_hist=dates(nh), time_cm_future=dates(nf)))
     return _DATA[var]
 
@@ -323,9 +356,10 @@ def diff_detail(ra, rb):
 
 def variables_for(name, tier):
     """tas always; pr too (QuantileDeltaMapping's censored-gamma fits are slow: thorough tier only)"""
+    years = ["tas_years"] if name in ("CDFt", "QuantileDeltaMapping") else []  # only the year-window attributes are exercised on it
     if tier == "thorough" or name != "QuantileDeltaMapping":
-        return ["tas", "pr"]
-    return ["tas"]
+        return ["tas", "pr"] + years
+    return ["tas"] + years
 
 
 def base_kwargs(name, var="tas"):
@@ -335,6 +369,8 @@ def base_kwargs(name, var="tas"):
     kw = dict(running_window_mode=True, running_window_step_length=31)
     if name == "ECDFM" and var == "tas":
         kw["distribution"] = scipy.stats.norm
+    if var == "tas_years":
+        kw.update(running_window_over_years_of_cm_future_length=5, running_window_over_years_of_cm_future_step_length=1)
     if name == "QuantileDeltaMapping":
         kw["cdf_threshold"] = 0.01
         if var == "pr":
@@ -351,7 +387,7 @@ def construct(cls, kw, var="tas"):
     with warnings.catch_warnings():
         warnings.simplefilter("ignore")
         try:
-            return cls.from_variable(var, **kw), None
+            return cls.from_variable("tas" if var == "tas_years" else var, **kw), None
         except Exception as ex:  # noqa: BLE001
             return None, type(ex).__name__
 
@@ -583,6 +619,8 @@ def run(tier, res, force_search=False):
             ref = run_apply(base, var)
             for f in model_fields:
                 fname = f["name"]
+                if var == "tas_years" and "over_years" not in fname:
+                    continue
                 cur = getattr(base, fname)
                 x = alt_value(name, f, cur, var)
                 if x is None:
@@ -611,6 +649,9 @@ def run(tier, res, force_search=False):
                 n_effect += effect
                 res.count((name, var, fname, "assign"), effect, sample={**case, "constructed": ra[0] if ra[0] == "ok" else ra, "assigned": rb[0] if rb[0] == "ok" else rb,
                                                                      "changes_output": bool(effect)} if effect else None)
+                if A is not None and errB is None and ra[0] == rb[0] == "ok" and observe(A, name, ra) != observe(B, name, rb):
+                    problems.append((f"after {fname}={x!r} was assigned and apply ran, the derived attributes are {observe(B, name, rb)[1:]} — an instance "
+                                     f"constructed with {fname}={x!r} has {observe(A, name, ra)[1:]}", case, {"what": "derived_attribute_stale"}))
                 if not same:
                     detail = (f"max |diff| = {float(np.nanmax(np.abs(ra[1] - rb[1]))):.3g}" if ra[0] == rb[0] == "ok" and ra[1].shape == rb[1].shape
                               else f"constructed: {ra if ra[0] != 'ok' else 'ok'}, assigned: {rb if rb[0] != 'ok' else 'ok'}")
@@ -621,6 +662,10 @@ def run(tier, res, force_search=False):
                     for first in ("apply", "read"):
                         ok_seq, _, rs, S = sequence_case(lambda extra: construct(cls, {**base_kw, **extra}, var), [(fname, x)], var, first, ra=ra)
                         res.count((name, var, fname, "sequence", first), True)
+                        if A is not None and S is not None and ra[0] == rs[0] == "ok" and observe(A, name, ra) != observe(S, name, rs):
+                            problems.append((f"{first} first, then {fname}={x!r} assigned, then apply: the derived attributes are {observe(S, name, rs)[1:]} — an "
+                                             f"instance constructed with {fname}={x!r} has {observe(A, name, ra)[1:]}",
+                                             {**case, "sequence": [first, f"assign {fname}", "apply"]}, {"what": "derived_attribute_stale"}))
                         if (first == "apply" and fname in WINDOW_FIELDS and S is not None
                                 and (rs[0] == "ok" or rs[1] in ("ValueError", "TypeError", "AttributeError"))):
                             # model: the same history (apply, assignment, apply) through `runOps`
@@ -659,6 +704,44 @@ def run(tier, res, force_search=False):
                                      {"debiaser": name, "variable": var, "setting": "running_window_mode", "value": True, "base_kwargs": "default"},
                                      {"what": "assign_ne_construct"}))
 
+        # (d') every value SPELLING: assignment accepts exactly what construction accepts, stores the same value (and type), same output
+        base_kw = base_kwargs(name, "tas")
+        for f in model_fields:
+            base_i, _ = construct(cls, base_kw)
+            for x, note in spellings(f, getattr(base_i, f["name"])):
+                case = {"debiaser": name, "variable": "tas", "base_kwargs": {k: (v if isinstance(v, (bool, int, float, str)) else repr(v)) for k, v in base_kw.items()},
+                        "setting": f["name"], "value": repr(x), "value_type": type(x).__name__, "why": note}
+                A, errA = construct(cls, {**base_kw, f["name"]: x})
+                B, _ = construct(cls, base_kw)
+                errB = None
+                try:
+                    with warnings.catch_warnings():
+                        warnings.simplefilter("ignore")
+                        setattr(B, f["name"], x)
+                except Exception as ex:  # noqa: BLE001
+                    errB = type(ex).__name__
+                res.count((name, f["name"], "spelling", note), True, sample=case if f["converter"] and len(res.distinct) % 7 == 0 else None)
+                stored = None if errB else getattr(B, f["name"])
+                q(f"setattr {name} {f['name']} {enc_np(x)}", "setattr", case, "error " + errB if errB else "ok " + enc_np(stored))
+                if (A is None) != (errB is not None):
+                    if A is not None:
+                        problems.append((f"{f['name']}={x!r} ({type(x).__name__}) is accepted at construction (stored {getattr(A, f['name'])!r}) but the "
+                                         f"assignment raises {errB}", case, {"what": "assign_rejects_construct_accepts"}))
+                    elif not (errA in ("ValueError",) and f["name"].startswith("running_window")):  # (a combination caught only by post-init, later at apply)
+                        problems.append((f"{f['name']}={x!r} ({type(x).__name__}) is rejected at construction ({errA}) but accepted by assignment", case,
+                                         {"what": "assign_accepts_construct_rejects"}))
+                    continue
+                if A is None:
+                    continue
+                va, vb = getattr(A, f["name"]), stored
+                if type(va) is not type(vb) or not same_value(va, vb):
+                    problems.append((f"{f['name']}={x!r} ({type(x).__name__}): construction stores {va!r} ({type(va).__name__}), assignment stores {vb!r} "
+                                     f"({type(vb).__name__})", case, {"what": "assign_stores_differently"}))
+                elif f["converter"]:
+                    ra, rb = run_apply(A), run_apply(B)
+                    if not same_result(ra, rb):
+                        problems.append((f"{f['name']}={x!r} ({type(x).__name__}) assigned before apply differs from the same value at construction "
+                                         f"({diff_detail(ra, rb)})", case, {"what": "assign_ne_construct"}))
         # (e) invalid values: rejected at construction (and the model's class) — whatever the *other* settings are
         base_kw = base_kwargs(name, "tas")
         base, _ = construct(cls, base_kw)
@@ -873,6 +956,19 @@ def replay(data):
     cls = getattr(D, fi["debiaser"])
     what = data.get("signature", {}).get("what")
     print("replaying", what, fi)
+    if what in ("assign_rejects_construct_accepts", "assign_accepts_construct_rejects", "assign_stores_differently") and "value_type" in fi:
+        x = eval(fi["value"], {"np": np})  # noqa: S307  repr of a Python / numpy scalar written by this check
+        base_kw = base_kwargs(fi["debiaser"], "tas")
+        A, errA = construct(cls, {**base_kw, fi["setting"]: x})
+        B, _ = construct(cls, base_kw)
+        try:
+            setattr(B, fi["setting"], x)
+            rb = ("stored", repr(getattr(B, fi["setting"])), type(getattr(B, fi["setting"])).__name__)
+        except Exception as ex:  # noqa: BLE001
+            rb = ("raised", type(ex).__name__)
+        ra = ("raised", errA) if A is None else ("stored", repr(getattr(A, fi["setting"])), type(getattr(A, fi["setting"])).__name__)
+        print("construction:", ra, "assignment:", rb)
+        return 0 if ra == rb else 1
     if what == "alias_outcome":
         a, b = outcome_from_variable(cls, fi["argument"])[0], outcome_from_variable(cls, fi["canonical"])[0]
         print(f"from_variable({fi['argument']!r}): {a}; from_variable({fi['canonical']!r}): {b}")
